@@ -105,6 +105,70 @@ def h_region_wrong_shape(n, c, tn, tc, a, ln):
     sx.require(ln == n, "region-of-wrong-shape-accepted", f"source {n} region length {ln}")
 
 
+def h_region_short(n, c, tn, tc, a, g0, g1):
+    """a region with FEWER slices than the target has dimensions (NumPy: target[a:a+n] = source; trailing dimensions whole):
+    2-d target (tn, 2) in chunks (tc, 1), source (n, 2): inside the region element (g0, g1) is source (g0 - a, g1), outside unwritten;
+    or the call is refused at build time"""
+    import cubed
+
+    c01._start()
+    sx.assume(c <= n)
+    sx.assume(tc <= tn)
+    sx.assume(a + n <= tn)
+    sx.assume(g0 < tn)
+    sx.assume(a % tc == 0)
+    sx.assume(sx.sor((a + n) % tc == 0, a + n == tn))
+    x = G.stub_array("x", (n, 2), (c, 1))
+    target = G.ZStub((tn, 2), (tc, 1), "float64")
+    g1 = sx.conc(g1)
+    try:
+        (out,) = cubed.store([x], [target], regions=(slice(a, a + n),), compute=False)
+    except (ValueError, NotImplementedError, IndexError, TypeError):
+        return  # refused up front: allowed
+    try:
+        t = G.Evaluator(out._plan.dag).elem_of(out.name, (g0, g1))
+    except Exception as ex:  # noqa: BLE001 - an accepted store must run
+        raise sx.Violated("accepted-region-store-fails-in-a-task", f"{type(ex).__name__}: {str(ex)[:200]}") from ex
+    if sx.sand(g0 >= a, g0 < a + n):
+        sx.require(t != ("unwritten",) and not anp.has_uninit(t), "region-element-not-written", f"element ({g0},{g1}): {t}")
+        sx.require(anp.terms_equal(t, ("elem", "x", (g0 - a, g1))), "region-element-has-wrong-source", f"element ({g0},{g1}): {t} (region {a}:{a + n})")
+    else:
+        sx.require(t == ("unwritten",), "element-outside-region-written", f"element ({g0},{g1}): {t}")
+
+
+def h_region_odd_bounds(n, c, tn, tc, kind, k, g):
+    """region bounds NumPy accepts but that are not plain non-negative unit-step slices: negative start (slice(-k, None)), step 2,
+    open start/stop (None): either refused at build time or filled exactly as NumPy would; never a failure inside a task"""
+    import cubed
+
+    c01._start()
+    sx.assume(c <= n)
+    sx.assume(tc <= tn)
+    sx.assume(g < tn)
+    kd = sx.conc(kind)
+    tn_ = sx.conc(tn)
+    k_ = sx.conc(k)
+    sx.assume(k_ <= tn_)
+    reg = [slice(-k_, None), slice(0, tn_, 2), slice(None, k_), slice(tn_ - k_, None)][kd]
+    idxs = list(range(tn_))[reg]
+    sx.assume(n == len(idxs))
+    x = G.stub_array("x", (n,), (c,))
+    target = G.ZStub((tn_,), (tc,), "float64")
+    try:
+        (out,) = cubed.store([x], [target], regions=(reg,), compute=False)
+    except (ValueError, NotImplementedError, IndexError, TypeError):
+        return  # refused up front
+    try:
+        t = G.Evaluator(out._plan.dag).elem_of(out.name, (g,))
+    except Exception as ex:  # noqa: BLE001
+        raise sx.Violated("accepted-region-store-fails-in-a-task", f"region {reg}: {type(ex).__name__}: {str(ex)[:200]}") from ex
+    gg = sx.conc(g)
+    if gg in idxs:
+        sx.require(anp.terms_equal(t, ("elem", "x", (idxs.index(gg),))), "region-element-has-wrong-source", f"region {reg} element {gg}: {t}")
+    else:
+        sx.require(t == ("unwritten",), "element-outside-region-written", f"region {reg} element {gg}: {t}")
+
+
 def h_path(n, c, g):
     out, info = SG.b_store_path(n, c)
     sx.assume(g < n)
@@ -159,6 +223,10 @@ def obligations(tier):
                  bounds="as fill[region], aligned and misaligned offsets", **common))
     o.append(Obl("reject[region-shape]", h_region_wrong_shape, [("n", 1, R), ("c", 1, R), ("tn", 1, R + 3), ("tc", 1, R), ("a", 0, R), ("ln", 1, R)],
                  bounds="as fill[region], region length independent of the source length", **common))
+    o.append(Obl("fill[region,fewer-slices-than-dims]", h_region_short, [("n", 1, R), ("c", 1, R), ("tn", 1, R + 3), ("tc", 1, R), ("a", 0, R), ("g0", 0, R + 3), ("g1", 0, 1)],
+                 bounds=f"2-d target (tn <= {R + 3}, 2) in chunks (tc, 1), source (n <= {R}, 2), region = one slice", witness_rule=lambda m: m["n"] >= 2, **common))
+    o.append(Obl("fill[region,negative/stepped/open-bounds]", h_region_odd_bounds, [("n", 1, R + 3), ("c", 1, R), ("tn", 1, R + 3), ("tc", 1, R), ("kind", 0, 3), ("k", 1, R), ("g", 0, R + 3)],
+                 bounds=f"1-d target tn <= {R + 3}; regions slice(-k, None), slice(0, tn, 2), slice(None, k), slice(tn-k, None)", witness_rule=lambda m: m["tn"] >= 3, **common))
     o.append(Obl("fill[to_zarr-path]", h_path, [("n", 1, N), ("c", 1, N), ("g", 0, N)], bounds=f"n, chunk <= {N}", **common))
     o.append(Obl("fill[sharded-target]", h_sharded, [("n", 1, N), ("c", 1, N), ("sh", 1, N), ("g", 0, N)], bounds=f"n, chunk, shard <= {N}", witness_rule=lambda m: m["c"] != m["sh"], **common))
     o.append(Obl("pairing", h_pairing, [("ns", 0, 3), ("nt", 0, 3), ("nr", 0, 4), ("bad", 0, 1)], bounds="0..3 sources/targets, regions None or a list of 0..3", **common))
